@@ -1,7 +1,7 @@
 """C27 — message wrapping keeps text and layout rules."""
 import io
 import random
-from typing import List, Optional
+from typing import Any, List, Optional
 
 from vf import corpus, driver, harness, hooks
 
@@ -116,8 +116,15 @@ def main(argv) -> int:
         ("", 10), ("single", 3), ("x " * 40 + "the end", 60), ("aa the b", 6),
         ("the " + "w" * 70 + " tail", 60), ("w" * 60 + " the x", 60),
     ]
+    def call(*args: Any) -> None:
+        # the monitor has recorded a raised exception as a violation: go on
+        try:
+            common.wrap_text_into_lines(*args)
+        except Exception:  # noqa
+            chk.count("calls_that_raised")
+
     for text, width in fixed:
-        common.wrap_text_into_lines(text, width)
+        call(text, width)
 
     n = chk.pick(20000, 600000)
     budget = chk.wall_budget(40, 420)
@@ -128,9 +135,9 @@ def main(argv) -> int:
         text = gen_text(rng)
         width = rng.choice([1, 2, 3, 4, 5, 8, 10, 20, 40, 59, 60, 61, 80, 120, rng.randint(1, 120)])
         if rng.random() < 0.3:
-            common.wrap_text_into_lines(text)
+            call(text)
         else:
-            common.wrap_text_into_lines(text, width)
+            call(text, width)
 
     # real descriptions while generators run
     state["in_generation"] = True
